@@ -1,0 +1,15 @@
+//go:build verif
+
+package generatecmd
+
+// VerifHook, when set, is called at the points of Run and HandleEvent that the verification
+// harness in /verif (property C15) observes: event received, worker start/end, error sent,
+// post-generation event sent, orphan removed, file written, map critical sections, channel closes.
+// It is only compiled with the build tag "verif".
+var VerifHook func(event string, fileName string)
+
+func verifEmit(event string, fileName string) {
+	if h := VerifHook; h != nil {
+		h(event, fileName)
+	}
+}
